@@ -475,9 +475,10 @@ func (cluH) Execute(c *Case, res *Result) {
 			if res.Harness != "" {
 				return
 			}
-			for w.concDone < concOpsCount(ops) {
+			doneOps := func() int { w.hmu.Lock(); defer w.hmu.Unlock(); return w.concDone }
+			for doneOps() < concOpsCount(ops) {
 				sim.Settle()
-				if w.concDone < concOpsCount(ops) {
+				if doneOps() < concOpsCount(ops) {
 					time.Sleep(time.Second)
 				}
 			}
@@ -565,10 +566,12 @@ func (w *cluWorld) own(op cluOp, id string) {
 		return
 	}
 	t := op.Task % w.cfg.Tasks
+	w.hmu.Lock()
 	if w.owned[t] == nil {
 		w.owned[t] = map[string]bool{}
 	}
 	w.owned[t][id] = true
+	w.hmu.Unlock()
 }
 
 func (w *cluWorld) pick(op cluOp) string {
